@@ -54,7 +54,7 @@ theorem takeDiag_diagonalize (z : α) (t : Tensor α) {s : List Nat} {n : Nat} (
   rw [get_takeDiag hd hp hk, get_diagonalize z hs hp hk hk, if_pos rfl]
 
 /-- the same with the evaluator's guard (`Diagonalize` needs `ndim > 0`) as hypothesis -/
-theorem takeDiag_diagonalize' (z : α) (t : Tensor α) (h : t.shape ≠ []) : takeDiag (diagonalize z t) ≃ₜ t :=
+theorem takeDiag_diagonalize_of_ne_nil (z : α) (t : Tensor α) (h : t.shape ≠ []) : takeDiag (diagonalize z t) ≃ₜ t :=
   takeDiag_diagonalize z t (shape_snoc_of_ne_nil h)
 
 /-- `InsertAxis._takediag` (axis2 = inserted axis, axis1 = ndim-2): `TakeDiag(InsertAxis(f, n)) = f` when the last
@@ -343,6 +343,26 @@ theorem sum_inflate {add : α → α → α} {z : α} (h : IsCommMonoid add z) (
     reduceLast add z (inflate add z t dm len) ≃ₜ reduceLastN add z dm.shape.length t :=
   (sum_inflate_fsum h t dm len hs hdm).trans (reduceLastN_eq_fsum h s _ dm.shape t rfl hs).symm
 
+/-- `Inflate._multiply`: `Inflate(f, d, n) * g = Inflate(f * Take(g, d), d, n)`; needs right distributivity,
+`0 * w = 0` (out-of-range dofs contribute to neither side). -/
+theorem inflate_mul (add mul : α → α → α) (z : α) (hd : ∀ x y w, mul (add x y) w = add (mul x w) (mul y w))
+    (h0 : ∀ w, mul z w = z) (a g : Tensor α) (dm : Tensor Nat) (len : Nat) {s : List Nat}
+    (ha : a.shape = s ++ dm.shape) (hg : g.shape = s ++ [len]) :
+    zipWith mul (inflate add z a dm len) g ≃ₜ inflate add z (zipWith mul a (take g dm)) dm len := by
+  have hz : (zipWith mul a (take g dm)).shape = s ++ dm.shape := ha
+  have hia := shape_inflate add z dm len ha
+  refine equiv_snoc hia (shape_inflate add z dm len hz) fun pre k hp hk => ?_
+  rw [get_zipWith mul _ g (hia ▸ inBox_snoc hp hk), get_inflate add z dm len ha hp hk,
+    get_inflate add z dm len hz hp hk,
+    ← foldl_cond_mul_right add mul hd (fun d => dm.get d == k) (fun d => a.get (pre ++ d)) (g.get (pre ++ [k])), h0]
+  refine foldl_congr_mem _ _ fun acc d hdm' => ?_
+  have hdb := mem_indices hdm'
+  by_cases c : (dm.get d == k) = true
+  · have e : dm.get d = k := by simpa using c
+    simp only [c, if_true]
+    rw [get_zipWith mul a _ (ha ▸ inBox_app hp hdb), get_take hg dm hp hdb, e]
+  · simp [c]
+
 /-! ### 8. pointwise operations and InsertAxis; Sum of a product with an inserted factor -/
 
 /-- `InsertAxis._add`, `InsertAxis._multiply`, `InsertAxis._power` (both operands constant along the last axis;
@@ -380,7 +400,8 @@ theorem takeDiag_zipWith (f : α → α → α) (a b : Tensor α) {s : List Nat}
   rw [get_takeDiag hz hp hk, get_zipWith f a b (ha ▸ inBox_snoc2 hp hk hk),
     get_zipWith f _ _ (shape_takeDiag ha ▸ inBox_snoc hp hk), get_takeDiag ha hp hk, get_takeDiag hb hp hk]
 
-/-- `Add._sum`: `Sum(f + g) = Sum(f) + Sum(g)` (commutative monoid). -/
+/-- `Add._sum`: `Sum(f + g) = Sum(f) + Sum(g)` (commutative monoid); with `(*, 1)` it is `Multiply._product`:
+`Product(f * g) = Product(f) * Product(g)`. -/
 theorem reduceLast_zipWith_add {add : α → α → α} {z : α} (h : IsCommMonoid add z) (a b : Tensor α)
     {s : List Nat} {n : Nat} (ha : a.shape = s ++ [n]) (hb : b.shape = s ++ [n]) :
     reduceLast add z (zipWith add a b) ≃ₜ zipWith add (reduceLast add z a) (reduceLast add z b) := by
@@ -528,6 +549,214 @@ theorem transpose_full (s : List Nat) (x : α) (p : List Nat) (hp : IsPerm p s.l
     rw [get_transpose (full s x) p h, get_full _ _ h]
     exact get_full _ _ (inBox_transposeSrc (sh := s) hp h)
 
+/-! ### unit / zero lengths and Range indices (`_simplified` branches) -/
+
+/-- every branch that returns `zeros_like(self)` because some axis has length zero (`InsertAxis._simplified`
+with `iszero(length)`, `Take._simplified` with an empty index array, …): two tensors of the same shape with a
+zero-length axis are equal, there is no entry to compare. -/
+theorem equiv_of_zero_length {A B : Tensor α} {s : List Nat} (hA : A.shape = s) (hB : B.shape = s)
+    (h0 : 0 ∈ s) : A ≃ₜ B := by
+  refine equiv_of_get hA hB fun idx h => ?_
+  exfalso
+  have hall := (inBox_iff_getD.1 h).2
+  obtain ⟨k, hk, e⟩ := List.getElem_of_mem h0
+  have := hall k hk
+  rw [getD_eq_getElem hk, e] at this
+  omega
+
+/-- `InsertAxis._simplified`, `iszero(length)`: `InsertAxis(f, 0) = zeros_like` -/
+theorem insertAxis_zero (t : Tensor α) (z : α) : insertAxis t 0 ≃ₜ full (t.shape ++ [0]) z :=
+  equiv_of_zero_length (s := t.shape ++ [0]) rfl rfl (by simp)
+
+/-- `Diagonalize._simplified`, last axis of length one: `Diagonalize(f) = InsertAxis(f, 1)` -/
+theorem diagonalize_unit (z : α) (t : Tensor α) {s : List Nat} (hs : t.shape = s ++ [1]) :
+    diagonalize z t ≃ₜ insertAxis t 1 := by
+  refine equiv_snoc2 (shape_diagonalize z hs) (by show t.shape ++ [1] = _; rw [hs]; simp) fun pre i j hp hi hj => ?_
+  have hi0 : i = 0 := by omega
+  have hj0 : j = 0 := by omega
+  subst hi0 hj0
+  rw [get_diagonalize z hs hp hi hj, if_pos rfl, show pre ++ [0, 0] = (pre ++ [0]) ++ [0] by simp,
+    get_insertAxis t 1 (hs ▸ inBox_snoc hp hi) hj]
+
+/-- `Unravel._simplified`, `sh2 = 1`: `Unravel(f, a, 1) = InsertAxis(f, 1)` -/
+theorem unravel_unit (t : Tensor α) {s : List Nat} {a : Nat} (hs : t.shape = s ++ [a]) :
+    unravel t a 1 ≃ₜ insertAxis t 1 := by
+  refine equiv_snoc2 (shape_unravel hs a 1) (by show t.shape ++ [1] = _; rw [hs]; simp) fun pre i j hp hi hj => ?_
+  have hj0 : j = 0 := by omega
+  subst hj0
+  rw [get_unravel hs a 1 hp hi hj, show pre ++ [i, 0] = (pre ++ [i]) ++ [0] by simp,
+    get_insertAxis t 1 (hs ▸ inBox_snoc hp hi) hj]
+  simp
+
+/-- `Inflate._simplified`, scalar dofmap `0` into length one: `Inflate(f, 0, 1) = InsertAxis(f, 1)` -/
+theorem inflate_scalar_unit (add : α → α → α) (z : α) (hz : ∀ a, add z a = a) (t : Tensor α) (dm : Tensor Nat)
+    (hd : dm.shape = []) (h0 : dm.get [] = 0) : inflate add z t dm 1 ≃ₜ insertAxis t 1 := by
+  have hs : t.shape = t.shape ++ dm.shape := by rw [hd]; simp
+  refine equiv_snoc (shape_inflate add z dm 1 hs) rfl fun pre k hp hk => ?_
+  have hk0 : k = 0 := by omega
+  subst hk0
+  rw [get_inflate add z dm 1 hs hp hk, get_insertAxis t 1 hp hk, hd, indices_nil]
+  simp [h0, hz]
+
+/-- `Range._rtake`: `Take(f, Range(n)) = f` when `n` is the length of the last axis -/
+theorem take_range (t : Tensor α) {s : List Nat} {n : Nat} (hs : t.shape = s ++ [n]) (ind : Tensor Nat)
+    (hi : ind.shape = [n]) (hr : ∀ k, k < n → ind.get [k] = k) : take t ind ≃ₜ t := by
+  refine equiv_snoc (by rw [shape_take hs, hi]) hs fun pre k hp hk => ?_
+  rw [get_take hs ind hp (hi ▸ inBox_single.2 ⟨k, rfl, hk⟩), hr k hk]
+
+/-- `Take._optimized_for_numpy`: `Take(f, Range(l) + offset) = _TakeSlice(f, l, offset)` (offset `0` for a bare
+`Range`). -/
+theorem take_range_offset (t : Tensor α) {s : List Nat} {n : Nat} (hs : t.shape = s ++ [n]) (ind : Tensor Nat)
+    (l off : Nat) (hi : ind.shape = [l]) (hr : ∀ k, k < l → ind.get [k] = k + off) :
+    take t ind ≃ₜ sliceLast t off l := by
+  refine equiv_snoc (by rw [shape_take hs, hi]) (shape_sliceLast hs off l) fun pre k hp hk => ?_
+  rw [get_take hs ind hp (hi ▸ inBox_single.2 ⟨k, rfl, hk⟩), hr k hk, get_sliceLast hs off l hp hk]
+
+/-- `Range._rinflate`: `Inflate(f, Range(n), n) = f` -/
+theorem inflate_range {add : α → α → α} {z : α} (h : IsCommMonoid add z) (t : Tensor α) {s : List Nat}
+    {n : Nat} (hs : t.shape = s ++ [n]) (dm : Tensor Nat) (hd : dm.shape = [n])
+    (hr : ∀ k, k < n → dm.get [k] = k) : inflate add z t dm n ≃ₜ t := by
+  have hs' : t.shape = s ++ dm.shape := by rw [hd]; exact hs
+  refine equiv_snoc (shape_inflate add z dm n hs') hs fun pre k hp hk => ?_
+  rw [get_inflate add z dm n hs' hp hk,
+    foldl_cond_eq_fsum h (fun d => dm.get d == k) (fun d => t.get (pre ++ d)), hd, indices_single, fsum_map,
+    fsum_congr (g := fun d => if k = d then t.get (pre ++ [k]) else z) _ (fun d hd' => by
+      rw [hr d (List.mem_range.1 hd')]
+      by_cases e : d = k
+      · subst e; simp
+      · have e' : ¬ k = d := fun h => e h.symm
+        simp [e, e'])]
+  exact fsum_single h _ hk
+
 end laws
+
+/-! ## The laws on concrete tensors (hypotheses are satisfiable; the two sides are computed and compared) -/
+
+section examples
+
+def A : Tensor Int := ⟨[2, 3], #[1, 2, 3, 4, 5, 6]⟩
+def B : Tensor Int := ⟨[2, 3], #[10, 20, 30, 40, 50, 60]⟩
+def C : Tensor Int := ⟨[2, 3, 3], #[1, 2, 3, 4, 5, 6, 7, 8, 9, 10, 11, 12, 13, 14, 15, 16, 17, 18]⟩
+def I2 : Tensor Nat := ⟨[2], #[2, 0]⟩
+def J22 : Tensor Nat := ⟨[2, 2], #[1, 0, 0, 1]⟩
+def D3 : Tensor Nat := ⟨[3], #[1, 3, 1]⟩
+def R3 : Tensor Nat := ⟨[3], #[0, 1, 2]⟩
+
+theorem intAdd : IsCommMonoid (fun a b : Int => a + b) 0 := ⟨Int.add_assoc, Int.add_comm, Int.zero_add⟩
+theorem intMul : IsCommMonoid (fun a b : Int => a * b) 1 := ⟨Int.mul_assoc, Int.mul_comm, Int.one_mul⟩
+
+theorem I2_lt : ∀ j, inBox I2.shape j = true → I2.get j < 3 := fun j hj => by
+  obtain ⟨k, rfl, hk⟩ := inBox_single.1 hj
+  match k, hk with
+  | 0, _ => decide
+  | 1, _ => decide
+
+theorem J22_lt : ∀ j, inBox J22.shape j = true → J22.get j < 2 := fun j hj => by
+  obtain ⟨a, b, rfl, ha, hb⟩ := inBox_pair.1 hj
+  match a, b, ha, hb with
+  | 0, 0, _, _ => decide
+  | 0, 1, _, _ => decide
+  | 1, 0, _, _ => decide
+  | 1, 1, _, _ => decide
+
+theorem D3_lt : ∀ j, inBox D3.shape j = true → D3.get j < 4 := fun j hj => by
+  obtain ⟨k, rfl, hk⟩ := inBox_single.1 hj
+  match k, hk with
+  | 0, _ => decide
+  | 1, _ => decide
+  | 2, _ => decide
+
+theorem R3_get : ∀ k, k < 3 → R3.get [k] = k := fun k hk => by
+  match k, hk with
+  | 0, _ => decide
+  | 1, _ => decide
+  | 2, _ => decide
+
+-- 1
+example : takeDiag (diagonalize 0 A) ≃ₜ A := takeDiag_diagonalize 0 A (s := [2]) rfl
+example : (takeDiag (diagonalize 0 A)).toList = A.toList := by decide
+example : (diagonalize 0 A).toList = [1, 0, 0, 0, 2, 0, 0, 0, 3, 4, 0, 0, 0, 5, 0, 0, 0, 6] := by decide
+example : takeDiag (insertAxis A 3) ≃ₜ A := takeDiag_insertAxis A (s := [2]) rfl
+example : (takeDiag (insertAxis (insertAxis A 2) 2)).toList = (insertAxis A 2).toList := by decide
+-- 2
+example : reduceLast (· + ·) 0 (insertAxis A 4) ≃ₜ zipWith (· * ·) A (full A.shape ((4 : Nat) : Int)) :=
+  sum_insertAxis (· + ·) (· * ·) 0 (fun n : Nat => (n : Int)) (by simp) (by intro x k; simp [Int.mul_add]) A 4
+example : (reduceLast (· + ·) 0 (insertAxis A 4)).toList = [4, 8, 12, 16, 20, 24] := by decide
+example : reduceLast (· * ·) 1 (insertAxis A 3) ≃ₜ ofFn A.shape fun idx => (A.get idx) ^ 3 :=
+  product_insertAxis (· * ·) 1 (fun x n => x ^ n) (by simp) (by intro x k; exact Int.pow_succ x k) A 3
+example : (reduceLast (· * ·) 1 (insertAxis A 3)).toList = [1, 8, 27, 64, 125, 216] := by decide
+-- 3
+example : reduceLast (· + ·) 0 (diagonalize 0 A) ≃ₜ A :=
+  reduceLast_diagonalize (· + ·) 0 0 Int.add_zero Int.zero_add A (s := [2]) rfl
+example : (reduceLast (· + ·) 0 (diagonalize 0 A)).toList = A.toList := by decide
+-- 4
+example : transpose (transpose C [2, 0, 1]) [1, 0, 2] ≃ₜ transpose C [0, 2, 1] :=
+  transpose_transpose C [2, 0, 1] [1, 0, 2] (by decide) (by decide)
+example : (transpose (transpose C [2, 0, 1]) [1, 0, 2]).toList = (transpose C [0, 2, 1]).toList := by decide
+example : (transpose A [1, 0]).toList = [1, 4, 2, 5, 3, 6] := by decide
+example : transpose (transpose C [2, 0, 1]) [1, 2, 0] ≃ₜ C :=
+  transpose_transpose_inv C [2, 0, 1] [1, 2, 0] (by decide) (by decide) (by decide)
+example : transpose A [0, 1] ≃ₜ A := transpose_id A
+example : zipWith (· + ·) (transpose A [1, 0]) (transpose B [1, 0]) ≃ₜ transpose (zipWith (· + ·) A B) [1, 0] :=
+  transpose_zipWith (· + ·) A B rfl [1, 0] (by decide)
+example : IsPerm [2, 0, 1] 3 := isPerm_of_check rfl (by decide)
+-- 5
+example : take (insertAxis A 3) I2 ≃ₜ appendAxes A [2] := take_insertAxis A 3 I2 I2_lt
+example : (take A I2).toList = [3, 1, 6, 4] := by decide
+example : take (zipWith (· * ·) A B) I2 ≃ₜ zipWith (· * ·) (take A I2) (take B I2) :=
+  take_zipWith (· * ·) A B (s := [2]) rfl rfl I2 I2_lt
+example : take (take A I2) J22 ≃ₜ take A (take I2 J22) := take_take A (s := [2]) rfl I2 J22 (si := []) rfl J22_lt
+example : (take (take A I2) J22).toList = (take A (take I2 J22)).toList := by decide
+example : take A R3 ≃ₜ A := take_range A (s := [2]) rfl R3 rfl R3_get
+-- 6
+example : unravel (ravel C) 3 3 ≃ₜ C := unravel_ravel C (s := [2]) rfl
+example : ravel (unravel A 3 1) ≃ₜ A := ravel_unravel A (s := [2]) (a := 3) (b := 1) rfl
+example : ravel (unravel A 0 7) ≃ₜ ravel (unravel A 0 7) := Equiv.refl _
+example : (ravel C).shape = [2, 9] ∧ (ravel C).toList = C.toList := by decide
+example : (unravel (ravel C) 3 3).toList = C.toList := by decide
+example : reduceLast (· + ·) 0 (ravel C) ≃ₜ reduceLast (· + ·) 0 (reduceLast (· + ·) 0 C) :=
+  reduceLast_ravel intAdd C (s := [2]) rfl
+example : (reduceLast (· + ·) 0 (ravel C)).toList = [45, 126] := by decide
+-- 7
+example : zipWith (· + ·) (inflate (· + ·) 0 A D3 4) (inflate (· + ·) 0 B D3 4) ≃ₜ
+    inflate (· + ·) 0 (zipWith (· + ·) A B) D3 4 := inflate_zipWith intAdd A B D3 4 (s := [2]) rfl rfl
+example : (inflate (· + ·) 0 A D3 4).toList = [0, 4, 0, 2, 0, 10, 0, 5] := by decide
+example : zipWith (· * ·) (inflate (· + ·) 0 A D3 4) (inflate (· + ·) 0 B D3 4) ≃ₜ
+    inflate (· + ·) 0 (zipWith (· * ·) A (take (inflate (· + ·) 0 B D3 4) D3)) D3 4 :=
+  inflate_mul (· + ·) (· * ·) 0 Int.add_mul Int.zero_mul A _ D3 4 (s := [2]) rfl rfl
+example : reduceLast (· * ·) 1 (zipWith (· * ·) A B) ≃ₜ
+    zipWith (· * ·) (reduceLast (· * ·) 1 A) (reduceLast (· * ·) 1 B) :=
+  reduceLast_zipWith_add intMul A B (s := [2]) rfl rfl
+example : reduceLast (· + ·) 0 (inflate (· + ·) 0 A D3 4) ≃ₜ reduceLastN (· + ·) 0 1 A :=
+  sum_inflate intAdd A D3 4 (s := [2]) rfl D3_lt
+example : (reduceLast (· + ·) 0 (inflate (· + ·) 0 A D3 4)).toList = [6, 15] := by decide
+example : (reduceLast (· + ·) 0 (inflate (· + ·) 0 C (⟨[3, 3], #[0, 1, 2, 0, 1, 2, 3, 3, 3]⟩ : Tensor Nat) 4)).toList
+    = [45, 126] := by decide
+example : inflate (· + ·) 0 A R3 3 ≃ₜ A := inflate_range intAdd A (s := [2]) rfl R3 rfl R3_get
+-- 8
+example : zipWith (· * ·) (insertAxis A 2) (insertAxis B 2) ≃ₜ insertAxis (zipWith (· * ·) A B) 2 :=
+  zipWith_insertAxis (· * ·) A B 2 rfl
+example : reduceLast (· + ·) 0 (zipWith (· * ·) C (insertAxis A 3)) ≃ₜ zipWith (· * ·) (reduceLast (· + ·) 0 C) A :=
+  sum_mul_insertAxis (· + ·) (· * ·) 0 Int.add_mul Int.zero_mul C A rfl
+example : (reduceLast (· + ·) 0 (zipWith (· * ·) C (insertAxis A 3))).toList = [6, 30, 72, 132, 210, 306] := by decide
+-- 9
+example : takeDiag (zipWith (· + ·) C C) ≃ₜ zipWith (· + ·) (takeDiag C) (takeDiag C) :=
+  takeDiag_zipWith (· + ·) C C (s := [2]) rfl rfl
+example : (takeDiag C).toList = [1, 5, 9, 10, 14, 18] := by decide
+example : reduceLast (· + ·) 0 (zipWith (· + ·) A B) ≃ₜ
+    zipWith (· + ·) (reduceLast (· + ·) 0 A) (reduceLast (· + ·) 0 B) :=
+  reduceLast_zipWith_add intAdd A B (s := [2]) rfl rfl
+-- 10
+example : sliceLast (concatLast [A, B, A] [2]) 3 3 ≃ₜ B := sliceLast_concatLast [A] B [A] (pre := [2]) rfl
+example : (concatLast [A, B] [2]).toList = [1, 2, 3, 10, 20, 30, 4, 5, 6, 40, 50, 60] := by decide
+example : concatLast [sliceLast A 0 1, sliceLast A 1 2] [2] ≃ₜ A := concatLast_sliceLast A (pre := [2]) (a := 1) (b := 2) rfl
+example : (concatLast [sliceLast A 0 1, sliceLast A 1 2] [2]).toList = A.toList := by decide
+-- zeros / unit lengths
+example : reduceLast (· + ·) 0 (full [2, 3] (0 : Int)) ≃ₜ full [2] 0 := reduceLast_full_zero (· + ·) 0 rfl [2] 3
+example : insertAxis A 0 ≃ₜ full [2, 3, 0] 0 := insertAxis_zero A 0
+example : diagonalize 0 (insertAxis (reduceLast (· + ·) 0 A) 1) ≃ₜ insertAxis (insertAxis (reduceLast (· + ·) 0 A) 1) 1 :=
+  diagonalize_unit 0 _ (s := [2]) rfl
+
+end examples
 
 end NutilsVerif.C01
